@@ -37,6 +37,52 @@ type node struct {
 	op, tr, ov bool // opacity < 1, transform, overflow hidden
 	outline    bool
 	children   []*node
+	// inline content of a box without block children: text runs, inline-blocks, floats inside the line, spans
+	kind  string // "" (block) | "text" | "iblock" | "ifloat" | "span"
+	items []*node
+}
+
+// genItems: the inline content of a leaf box
+func genItems(r *rng.R, budget *int, depth int) []*node {
+	var out []*node
+	n := 1
+	if r.P(1, 3) {
+		n = r.Range(2, 4)
+	}
+	for i := 0; i < n; i++ {
+		k := "text"
+		if i > 0 || r.P(1, 4) {
+			k = rng.Pick(r, "text", "text", "iblock", "iblock", "ifloat", "span")
+		}
+		if k != "text" && (*budget <= 0 || depth >= 4) {
+			k = "text"
+		}
+		if k == "text" && len(out) > 0 && out[len(out)-1].kind == "text" {
+			continue // adjacent text runs would merge into one text box
+		}
+		it := &node{kind: k, pos: "static", z: "auto"}
+		if k != "text" {
+			*budget--
+			it.outline = r.P(1, 3)
+			if r.P(1, 4) {
+				it.pos = "relative"
+				it.z = rng.Pick(r, "auto", "auto", "-1", "0", "1")
+			}
+			if k == "iblock" && r.P(1, 5) {
+				switch r.Intn(3) {
+				case 0:
+					it.op = true
+				case 1:
+					it.tr = true
+				default:
+					it.ov = true
+				}
+			}
+			it.items = genItems(r, budget, depth+1)
+		}
+		out = append(out, it)
+	}
+	return out
 }
 
 func genTree(r *rng.R, budget *int, depth int) *node {
@@ -60,6 +106,9 @@ func genTree(r *rng.R, budget *int, depth int) *node {
 		for k := r.Range(0, 3); k > 0 && *budget > 0; k-- {
 			n.children = append(n.children, genTree(r, budget, depth+1))
 		}
+	}
+	if len(n.children) == 0 {
+		n.items = genItems(r, budget, depth+1)
 	}
 	return n
 }
@@ -89,6 +138,47 @@ func number(n *node, next *int) {
 	for _, c := range n.children {
 		number(c, next)
 	}
+	for _, c := range n.items {
+		number(c, next)
+	}
+}
+
+// itemHTML: one inline-level item
+func (n *node) itemHTML(b *strings.Builder) {
+	if n.kind == "text" {
+		fmt.Fprintf(b, "t%d ", n.id)
+		return
+	}
+	fmt.Fprintf(b, `<span id="b%d" style="`, n.id)
+	switch n.kind {
+	case "iblock":
+		fmt.Fprintf(b, "display:inline-block;background:%s;border:2px solid %s;", bgCol(n.id), bdCol(n.id))
+	case "ifloat":
+		fmt.Fprintf(b, "float:left;width:40px;background:%s;border:2px solid %s;", bgCol(n.id), bdCol(n.id))
+	}
+	if n.pos != "static" {
+		fmt.Fprintf(b, "position:%s;left:%dpx;top:%dpx;", n.pos, 1+n.id%5, 1+n.id%3)
+	}
+	if n.z != "auto" {
+		fmt.Fprintf(b, "z-index:%s;", n.z)
+	}
+	if n.op {
+		b.WriteString("opacity:0.5;")
+	}
+	if n.tr {
+		fmt.Fprintf(b, "transform:translate(%dpx,0);", 100+n.id)
+	}
+	if n.ov {
+		b.WriteString("overflow:hidden;")
+	}
+	if n.outline {
+		fmt.Fprintf(b, "outline:1px solid %s;", olCol(n.id))
+	}
+	b.WriteString(`">`)
+	for _, c := range n.items {
+		c.itemHTML(b)
+	}
+	b.WriteString("</span> ")
 }
 
 func bgCol(id int) string { return fmt.Sprintf("#%02x64c8", id) }
@@ -124,7 +214,12 @@ func (n *node) html(b *strings.Builder) {
 	}
 	b.WriteString(`">`)
 	if len(n.children) == 0 {
-		fmt.Fprintf(b, "t%d", n.id)
+		if len(n.items) == 0 {
+			fmt.Fprintf(b, "t%d", 1000+n.id) // the text run is a box of its own
+		}
+		for _, c := range n.items {
+			c.itemHTML(b)
+		}
 	}
 	for _, c := range n.children {
 		c.html(b)
@@ -137,10 +232,32 @@ func count(n *node) int {
 	for _, c := range n.children {
 		k += count(c)
 	}
+	for _, c := range n.items {
+		if c.kind != "text" {
+			k += count(c)
+		}
+	}
 	return k
 }
 
 func features(n *node, f map[string]bool) {
+	switch n.kind {
+	case "iblock":
+		f["inline-block"] = true
+	case "ifloat":
+		f["float-in-inline"] = true
+	case "span":
+		f["span"] = true
+		if n.pos != "static" {
+			f["positioned-span"] = true
+		}
+	}
+	if len(n.items) > 1 {
+		f["mixed-inline-content"] = true
+	}
+	for _, c := range n.items {
+		features(c, f)
+	}
 	if n.pos != "static" && n.z != "auto" {
 		f["z-context"] = true
 		if strings.HasPrefix(n.z, "-") {
@@ -180,13 +297,20 @@ func features(n *node, f map[string]bool) {
 }
 
 // abstract builds the model's input from the IMPLEMENTATION's laid-out box.
-func abstract(b bo.Box) sx.X {
+func abstract(b bo.Box, parentEl interface{}) sx.X {
 	if ap, ok := b.(*layout.AbsolutePlaceholder); ok {
 		b = ap.AliasBox
 	}
 	f := b.Box()
 	id := 0
-	if f.Element != nil && f.PseudoType == "" {
+	tb, isText := b.(*bo.TextBox)
+	switch {
+	case isText:
+		// a text run is identified by its token
+		fmt.Sscanf(strings.TrimSpace(tb.TextS()), "t%d", &id)
+	case bo.LineT.IsInstance(b) || (f.Element != nil && interface{}(f.Element) == parentEl):
+		// anonymous: line boxes, anonymous block / inline boxes carry their parent's element
+	case f.Element != nil && f.PseudoType == "":
 		for _, a := range f.Element.Attr {
 			if a.Key == "id" && strings.HasPrefix(a.Val, "b") {
 				fmt.Sscan(a.Val[1:], &id)
@@ -198,19 +322,22 @@ func abstract(b bo.Box) sx.X {
 	if zi := st.GetZIndex(); zi.String != "auto" {
 		z = sx.I(zi.Int)
 	}
-	hasLines := false
-	if n := len(f.Children); n > 0 {
-		hasLines = bo.LineT.IsInstance(f.Children[n-1])
+	// the box paints the inline drawing of its children as its own content: block container of line boxes
+	// (drawStackingContext step 7) or inline box (step 6)
+	hasLines := bo.InlineT.IsInstance(b)
+	if n := len(f.Children); n > 0 && bo.LineT.IsInstance(f.Children[n-1]) {
+		hasLines = true
 	}
 	var ch []sx.X
-	if bo.ParentT.IsInstance(b) && !hasLines {
+	if bo.ParentT.IsInstance(b) {
 		for _, c := range f.Children {
-			ch = append(ch, abstract(c))
+			ch = append(ch, abstract(c, interface{}(f.Element)))
 		}
 	}
 	return sx.L(sx.A("b"), sx.I(id), sx.B(st.GetPosition().String != "static"), z, sx.B(f.IsFloated()),
 		sx.B(st.GetOpacity() < 1), sx.B(len(st.GetTransform()) != 0), sx.B(st.GetOverflow() != "visible"),
-		sx.B(bo.BlockLevelT.IsInstance(b)), sx.B(bo.InlineBlockT.IsInstance(b) || bo.InlineFlexT.IsInstance(b)), sx.B(hasLines), sx.L(ch...))
+		sx.B(bo.BlockLevelT.IsInstance(b)), sx.B(bo.InlineBlockT.IsInstance(b) || bo.InlineFlexT.IsInstance(b) || bo.InlineGridT.IsInstance(b)),
+		sx.B(hasLines), sx.B(isText), sx.L(ch...))
 }
 
 // implOrder maps what reaches the backend back to (box, layer) events:
@@ -231,6 +358,7 @@ func implOrder(rec *render.Rec) []string {
 	groupID := map[int]int{}         // group canvas -> box id
 	groupCloses := map[int][]string{} // closes pending at depth 0 of a group canvas
 	lastFill := map[int][3]int{}
+	olFills := map[int]int{}
 	lastID := 0
 	top := func(c int) *frame {
 		if st := stacks[c]; len(st) > 0 {
@@ -256,8 +384,13 @@ func implOrder(rec *render.Rec) []string {
 			}
 		}
 		ev := fmt.Sprintf("(%d %s)", id, layer)
-		if layer == "ol" && len(out) > 0 && out[len(out)-1] == ev {
-			return
+		if layer == "ol" {
+			// an outline is four fills (one per side): the first of each four counts (a span split over two
+			// lines is two boxes, hence two outlines)
+			olFills[id]++
+			if olFills[id]%4 != 1 {
+				return
+			}
 		}
 		out = append(out, ev)
 		lastID = id
@@ -393,7 +526,7 @@ func Run(tier string, seed uint64, modelPath, repo string, out *res.Result) erro
 	if tier == "smoke" {
 		n = 300
 	}
-	out.Rule = "5/6 random trees of <=9 block boxes (depth<=4) x position{static,relative,absolute} x z-index{auto,-2,-1,0,1,1,2} x float x subsets of {opacity,transform,overflow} x outline, 1/6 wide documents of 13-40 sibling positioned contexts with tied unsorted z-index values (optionally under a common context); unique background/border/outline colours, texts and translations; " +
+	out.Rule = "5/6 random trees of <=9 block boxes (depth<=4) x position{static,relative,absolute} x z-index{auto,-2,-1,0,1,1,2} x float x subsets of {opacity,transform,overflow} x outline, leaf boxes with inline content (text runs, inline-blocks, floats inside the line, plain and positioned spans, nested), 1/6 wide documents of 13-40 sibling positioned contexts with tied unsorted z-index values (optionally under a common context); unique background/border/outline colours, texts and translations; " +
 		"the sequence of fills, DrawText calls and group brackets (opacity group, transform scope, overflow clip) is compared with the Lean model of stacking.go run on the implementation's laid-out tree (corr) and with the Lean Appendix E spec (judge); corpus cases first; " +
 		"non-trivial = at least one box makes a stacking context, is positioned or floats; distinct by document text"
 	render.Quiet()
@@ -490,7 +623,7 @@ func one(m *mp.Model, src string, caseSeed uint64, fonts text.FontConfiguration,
 		return nil
 	}
 	// the root element's box
-	tree := abstract(doc.Pages[0].Children[0])
+	tree := abstract(doc.Pages[0].Children[0], nil)
 	ans, err := m.Ask(sx.L(sx.A("order"), tree))
 	if err != nil {
 		return err
